@@ -563,12 +563,46 @@ def _r14d(rep):
                 sib = bool(ma & mb)
             if not sib or na in ("print", "append", "add_argument", "write", "warn"):
                 continue
-            ka = {k.arg: k.value for k in a.keywords if k.arg}
-            kb = {k.arg: k.value for k in b.keywords if k.arg}
+            fn_ = core.enclosing_function(node)
+
+            def kwargs(call):
+                out = {k.arg: k.value for k in call.keywords if k.arg}
+                for k in call.keywords:
+                    if k.arg is None and isinstance(k.value, ast.Name) and fn_ is not None:
+                        d = core.resolve_name(fn_, k.value)  # **params with params a dict literal bound once
+                        if isinstance(d, ast.Dict):
+                            for kk, vv in zip(d.keys, d.values):
+                                if isinstance(kk, ast.Constant) and isinstance(kk.value, str):
+                                    out.setdefault(kk.value, vv)
+                return out
+
+            ka, kb = kwargs(a), kwargs(b)
+            test_names = {n.id for n in ast.walk(node.test) if isinstance(n, ast.Name)} | {core.src(n) for n in ast.walk(node.test) if isinstance(n, ast.Attribute)}
+            # a keyword only one arm passes although the sibling class of the other arm accepts it too
+            if na != nb and na in idx.classes and nb in idx.classes:
+                def init_params(cname):
+                    for c in idx.mro(idx.classes[cname][1]):
+                        for m in c.body:
+                            if isinstance(m, ast.FunctionDef) and m.name == "__init__":
+                                ps = m.args.args + m.args.kwonlyargs
+                                ds = [None] * (len(m.args.args) - len(m.args.defaults)) + list(m.args.defaults) + list(m.args.kw_defaults)
+                                return {p_.arg: d for p_, d in zip(ps, ds)}
+                    return {}
+
+                for (kx, ky, nx, ny) in ((ka, kb, na, nb), (kb, ka, nb, na)):
+                    accepts = init_params(ny)
+                    for k in sorted(set(kx) - set(ky)):
+                        if k not in accepts:
+                            continue
+                        dflt = accepts[k]
+                        v = core.src(kx[k])
+                        same_as_default = dflt is not None and core.src(dflt) == v
+                        selected = bool(({n.id for n in ast.walk(kx[k]) if isinstance(n, ast.Name)} | {v}) & test_names)
+                        rep.instance("R14d", rel, core.qualname_of(node), f"if {core.norm(core.src(node.test), 40)}: only {nx}(...) passes {k}={v}; {ny} accepts it too", same_as_default or selected,
+                                     f"{nx} is given {k}={v} but {ny}, built in the other arm for the same request, accepts '{k}' as well and is left at its default ({core.src(dflt) if dflt is not None else 'required'}): the two access paths (stored and iterated mesh) are configured differently, e.g. frequencies in different units whenever the value differs from the default", line=node.lineno)
             common = sorted(ka.keys() & kb.keys())
             if not common:
                 continue
-            test_names = {n.id for n in ast.walk(node.test) if isinstance(n, ast.Name)} | {core.src(n) for n in ast.walk(node.test) if isinstance(n, ast.Attribute)}
             for k in common:
                 va, vb = core.src(ka[k]), core.src(kb[k])
                 same = va == vb
